@@ -3,4 +3,5 @@ From Oxia.Cluster Require Import Model CodeModel.
 (* step_code = the protocol as the code runs it (one Truncate round per Attach); attach_consistent = the hypothesis of
    the proved theorem, evaluated on every Attach of every real trace.
    N.succ / Z.opp are extracted only because ocaml/conv.ml.in (shared) mentions the types positive, n and z. *)
-Extraction "cluster_model.ml" init step step_code run_code attach_consistent consistent_run acked_survive_b exposes node0 N.succ Z.opp.
+Extraction "cluster_model.ml" init step step_code run_code attach_consistent consistent_run acked_survive_b exposes node0
+  attach_decide lhead last_term N.succ Z.opp.
